@@ -445,7 +445,7 @@ def run_case(ib, rec, case, rng_mod):
     elif case["donor_mode"] == "donor_negzero":
         nd_rep, nd_pts = make_profile(0.0, 0.0, negzero=True)
     elif case["donor_mode"] == "donor_tiny":                 # negligible but non-zero donor
-        nd_rep, nd_pts = make_profile(base * 2.0 ** -81, base * 2.0 ** -80)
+        nd_rep, nd_pts = make_profile(base * 2.0 ** -25, base * 2.0 ** -24)
     elif case["donor_mode"] == "dens_nodonor":               # a donor density without a donor species: must be ignored
         nd_rep, nd_pts = make_profile(0.01 * base, 3.0 * base)
     nel_rep, nel_pts = make_profile(1e-4 * base, 1e-2 * base, float32_ok=True)
@@ -683,6 +683,25 @@ def run_case(ib, rec, case, rng_mod):
             [[float(itp[c](x, y)) for c in range(z + 1)] for x, y in grid], species=sp_list)
         itp = ib.interpolators2d_fractional(ad, el, (fx.copy(), fy.copy()), ne_rep, te_rep, *donor_args, **dk)
         mp = ib.abundance_axisymmetric_mapper(dict(reversed(list(itp.items()))))      # keys in descending order
+        # between the knots: one point inside every cell, through the interpolator and through the axisymmetric mapper
+        import math
+        case["lerp2"] = []
+        ny_ = len(fy)
+        for i in range(len(fx) - 1):
+            for j in range(ny_ - 1):
+                xq = float(F(fx[i]) + F(rng.randint(1, 15), 16) * (F(fx[i + 1]) - F(fx[i])))
+                yq = float(F(fy[j]) + F(rng.randint(1, 15), 16) * (F(fy[j + 1]) - F(fy[j])))
+                case["lerp2"].append({"k": i * ny_ + j, "i": i, "j": j, "x": xq, "y": yq, "ny": ny_,
+                                      "xs": [float(v) for v in fx], "ys": [float(v) for v in fy],
+                                      "src": "interpolators2d_fractional@(%r,%r)" % (xq, yq),
+                                      "values": [float(itp[c](xq, yq)) for c in range(z + 1)]})
+                xx, yy = xq * 0.6, xq * 0.8
+                rr = math.sqrt(xx * xx + yy * yy)                    # the radius the mapper evaluates the 2-D function at
+                if fx[i] <= rr <= fx[i + 1]:
+                    case["lerp2"].append({"k": i * ny_ + j, "i": i, "j": j, "x": rr, "y": yq, "ny": ny_,
+                                          "xs": [float(v) for v in fx], "ys": [float(v) for v in fy],
+                                          "src": "abundance_axisymmetric_mapper@(%r,%r,%r)" % (xx, yy, yq),
+                                          "values": [float(mp[c](xx, yy, yq)) for c in range(z + 1)]})
         add("frac", "abundance_axisymmetric_mapper(interpolators2d_fractional)@knots",
             [[float(mp[c](x * 0.6, x * 0.8, y)) for c in range(z + 1)] for x, y in grid])
     elif rep == "eqmap":
